@@ -782,15 +782,16 @@ func main() {
 	r.Set("entry_options", len(opts))
 	r.Set("layer_sets", len(sets))
 
-	report := func(c *caseT) {
+	report := func(c *caseT) bool {
 		if !anchored(c.Layers) {
-			return
+			return false
 		}
 		k, d := runCase(c, universe)
 		r.Evals.Add(1)
 		if k != "" {
 			r.Violation(k, fmt.Sprintf("layers %s style=%s history=%v req=%s: %s", layerStr(c.Layers), c.Style, c.History, c.Req, d), c)
 		}
+		return true
 	}
 	hidden := func(ls [][]imgkit.Entry) bool {
 		// non-trivial: some upper-layer entry whites out or replaces something a lower layer provided
@@ -830,8 +831,7 @@ func main() {
 		for _, o0 := range perms(l0) {
 			for _, o1 := range perms(l1) {
 				c := &caseT{Layers: [][]imgkit.Entry{o0, o1}, Style: "plain", Req: "all"}
-				report(c)
-				if nt {
+				if report(c) && nt {
 					r.Nontrivial.Add(1) // (layer sequence, entry order) pairs are distinct by construction
 					if r.SampleN() < 3 && len(o0)+len(o1) == 4 {
 						r.Sample(map[string]any{"layers": layerStr(c.Layers), "style": c.Style})
@@ -895,8 +895,7 @@ func main() {
 			l0, l1 := sets[i/len(sets)], sets[i%len(sets)]
 			for _, l2 := range s1 {
 				c := &caseT{Layers: [][]imgkit.Entry{l0, l1, l2}, Style: "plain", Req: "all"}
-				report(c)
-				if hidden(c.Layers) {
+				if report(c) && hidden(c.Layers) {
 					r.Nontrivial.Add(1)
 				}
 			}
